@@ -20,10 +20,11 @@ Variable ip6_check : str -> option str.
 Variable handler : str -> hres.
 Variable has_mw : bool.
 Variable has_upload : bool.
+Variable up_call_fails : option str.   (* what the call of the upload handler does: the translator's oracle is upcall_of of it *)
 Variable peer_ip : str.
 Variable peer_fp : option str.
 
-Notation cl f := (f reenc ip6_check handler has_mw has_upload peer_ip peer_fp).
+Notation cl f := (f reenc ip6_check handler has_mw has_upload (upcall_of up_call_fails) peer_ip peer_fp).
 
 Fixpoint gen_feed (s : st) (slices : list str) : st * list action :=
   match slices with
@@ -54,7 +55,7 @@ Definition gen_task_done (s0 : st) (id : nat) (o : outcome) : st * list action :
       | TTitanMw, ORaise m => cl cl_handle_titan_middleware_result s (TExc m)
       | TUpload, OResp r => cl cl_handle_titan_upload_result s (TRet r)
       | TUpload, ORaise m => cl cl_handle_titan_upload_result s (TExc m)
-      | _, _ => task_done handler has_upload s0 id o
+      | _, _ => task_done handler has_upload up_call_fails s0 id o
       end
   end.
 
